@@ -342,7 +342,7 @@ PROPS = {
         "harness": "c16", "driver": "c16", "shards": 2, "harness_shards": 16,
         "classify": c16_class,
         "nontrivial": lambda cls: cls["refused_at_cap"] == "True" or cls["notify_dropped"] == "True" or cls["panic"] == "True",
-        "rule": "cases = scripted histories on one live WebSocket connection with with_offreader_limit(cap), cap 1..3 and unlimited (quick) / 1..16 and unlimited (thorough), 0..2 middlewares: for cap <= 3 every release order x every exit kind {return, error, panic}^cap x every notify pattern (sampled 1/17 in quick), each with 4 x cap parked requests over the json/typed/ctx blocking routes, inline requests and notifies interleaved during saturation, optional refill after each exit, a fresh batch of cap (+1 refused) after all exits and a final inline call; random release orders for larger caps; random walks of 5..120 events; handlers park on per-request channels and keep an atomic gauge; a raw tungstenite peer with hand-built frames waits for the effect of every event; distinct = distinct script; non-trivial = a request was refused or dropped at the cap, or a handler panicked; bursts (pipe=1, oq=1..4): at the cap 2..96 requests leave the client in one write while the server's outbound queue holds 1..4 messages; odd tags panic with a non-string payload; slowrej= (a refusal at the cap that took more than 150 ms; driver-level clause) pipe=2 oq=1..2: cap+2..40 blocking requests leave the client in one write into a FREE pool (exactly the first cap are admitted), then all parked handlers are released at the same instant, half of them by panic (replies of such a group are compared as a set, in script order).",
+        "rule": "cases = scripted histories on one live WebSocket connection with with_offreader_limit(cap), cap 1..3 and unlimited (quick) / 1..16 and unlimited (thorough), 0..2 middlewares: for cap <= 3 every release order x every exit kind {return, error, panic}^cap x every notify pattern (sampled 1/17 in quick), each with 4 x cap parked requests over the json/typed/ctx blocking routes, inline requests and notifies interleaved during saturation, optional refill after each exit, a fresh batch of cap (+1 refused) after all exits and a final inline call; random release orders for larger caps; random walks of 5..120 events; handlers park on per-request channels and keep an atomic gauge; a raw tungstenite peer with hand-built frames waits for the effect of every event; distinct = distinct script; non-trivial = a request was refused or dropped at the cap, or a handler panicked; bursts (pipe=1, oq=1..4): at the cap 2..96 requests leave the client in one write while the server's outbound queue holds 1..4 messages; odd tags panic with a non-string payload; slowrej= (a refusal at the cap that took more than 150 ms; driver-level clause) pipe=2 oq=1..2: cap+2..40 blocking requests leave the client in one write into a FREE pool (exactly the first cap are admitted), then all parked handlers are released at the same instant, half of them by panic (replies of such a group are compared as a set, in script order). stallq=<ms> oq=1..3: the handler holding the last slot (ctx route) keeps the outbound queue full with 32 KiB pushes over 4 KiB socket buffers, the peer does not read; a request arriving at the cap waits behind the writer for 150..600 ms and is then refused with its id, the connection lives on.",
         "timeout_s": {"quick": 900, "thorough": 3400},
     },
     "C08": {
